@@ -589,6 +589,16 @@ class Interp:
         env = self.bind_args(fv, args, kwargs)
         if isinstance(fv.node, ast.Lambda):
             return self.eval(fv.node.body, env)
+        if _is_generator(fv.node):
+            # generator function: run to completion, collect the yielded
+            # values (sound for generators without side effects between
+            # yields, which is all pMuTT has)
+            env.vars['$yield'] = []
+            try:
+                self.exec_block(fv.node.body, env)
+            except ReturnSig:
+                pass
+            return list(env.vars['$yield'])
         self.trace_calls.append(fv.qualname)
         try:
             self.exec_block(fv.node.body, env)
@@ -997,7 +1007,11 @@ class Interp:
         if isinstance(v, Obj):
             f, _ = v.cls.lookup('__iter__')
             if f is not None:
-                raise Unsupported('user __iter__')
+                return self.iterate(self.call(BoundMethod(v, f), [], {}),
+                                    live)
+            g, _ = v.cls.lookup('__getitem__')
+            if g is not None:
+                raise Unsupported('iteration through __getitem__')
             raise_('TypeError', "'%s' object is not iterable" % v.cls.name)
         raise Unsupported('iterate %r' % type(v))
 
@@ -1351,6 +1365,16 @@ class Interp:
         obj = self.eval(node.value, env)
         return self.getitem(obj, self.eval_index(node.slice, env))
 
+    def ex_Yield(self, node, env):
+        e = env
+        while e is not None and '$yield' not in e.vars:
+            e = e.parent
+        if e is None:
+            raise Unsupported('yield outside generator')
+        e.vars['$yield'].append(self.eval(node.value, env)
+                                if node.value else None)
+        return None
+
     def ex_Starred(self, node, env):
         raise Unsupported('starred expression')
 
@@ -1453,6 +1477,26 @@ def _live_list(lst):
     while i < len(lst):
         yield lst[i]
         i += 1
+
+
+_gen_cache = {}
+
+
+def _is_generator(fnode):
+    key = id(fnode)
+    if key not in _gen_cache:
+        found = False
+        stack = list(fnode.body)
+        while stack:
+            n = stack.pop()
+            if isinstance(n, (ast.Yield, ast.YieldFrom)):
+                found = True
+                break
+            if isinstance(n, (ast.FunctionDef, ast.Lambda, ast.ClassDef)):
+                continue
+            stack.extend(ast.iter_child_nodes(n))
+        _gen_cache[key] = found
+    return _gen_cache[key]
 
 
 _assigned_cache = {}
